@@ -507,11 +507,31 @@ def explore_gateway(job: dict) -> dict:
         pair = "array-pair" in h.get("mutations", [])
         col.case(nt=jdump_frames(h["frames"]) if n >= 10 else None, classes=["gateway", "gateway:array-pair" if pair else "gateway:no-array-pair"],
                  sample={"system": h.get("system"), "n_frames": len(h["frames"]), "n_delivered": n, "mutations": h.get("mutations")})
+        if h.get("pauses"):
+            col.case(classes=["gateway:with-silences"], n=0)
+        for ch in obs.get("differs_from_alone", [])[:1]:
+            col.violation({"clause": "nondeterministic", "how": "delivered-differs-from-decode-alone", "code": ch["pkt"][37:41] if len(ch["pkt"]) > 41 else "?"},
+                          {"history": h}, f"{ch['pkt']!r} (previous packet {ch['gap']} s earlier): delivered {ch['delivered'][:200]} but alone {ch['alone'][:200]}")
         for ch in obs.get("payload_changes", [])[:1]:
             col.violation({"clause": "nondeterministic", "how": "payload-changed-after-delivery", "code": ch["pkt"][37:41] if len(ch["pkt"]) > 41 else "?"},
                           {"history": h}, f"{ch['pkt']!r}: delivered {ch['delivered'][:200]} but later {ch['later'][:200]}")
 
-    hyp_explore(history(max_len=60), body, job["n"], job["seed"])
+    from hypothesis import strategies as st
+
+    @st.composite
+    def hist_with_pauses(draw: Any) -> dict:
+        h = draw(history(max_len=60))
+        n = len(h["frames"])
+        # silences of 4-400 s after some packets (an array, then nothing for minutes, then the next broadcast of the same code)
+        h["pauses"] = {str(draw(st.integers(0, max(0, n - 1)))): draw(st.sampled_from((4.0, 4.0, 30.0, 120.0))) for _ in range(draw(st.integers(0, 4)))}
+        if "array-pair" in h["mutations"] and draw(st.booleans()):
+            for k, f in enumerate(h["frames"][:-1]):  # a long silence between the two broadcasts of a pair
+                if f[37:41] == "000A" and h["frames"][k + 1][37:41] == "000A" and f[:2] == " I" and f[7:16] == f[27:36]:
+                    h["pauses"][str(k)] = draw(st.sampled_from((4.0, 600.0)))
+        h["gap"] = draw(st.sampled_from((0.01, 0.05, 1.0)))
+        return h
+
+    hyp_explore(hist_with_pauses(), body, job["n"], job["seed"])
     return col.dump()
 
 
